@@ -577,4 +577,6 @@ class TruncAccept(Op):
 
 
 def ops():
+    import common
+    common.foreign_configurations()
     return [MkTP(), TextAccept(), DecAccept(), TruncAccept(), Garbage(), ExcClasses()]
